@@ -22,7 +22,7 @@ type World struct {
 	ModPath   string
 	Fset      *token.FileSet
 	Prog      *ssa.Program
-	Pkgs      map[string]*ssa.Package  // by import path
+	Pkgs      map[string]*ssa.Package   // by import path
 	ByName    map[string][]*ssa.Package // by package name
 	TPkgs     map[string]*packages.Package
 	Contracts map[*ssa.Function]*Contract
@@ -30,27 +30,27 @@ type World struct {
 	Externs   map[string]*Contract // key: full function name as printed by ssa (fn.String())
 	SpecFuncs map[string]*SpecFunc
 	Axioms    []*Axiom
-	TypeInvs  map[string]*TypeInv // key: types.Type string of the struct's named type
+	TypeInvs  map[string]*TypeInv       // key: types.Type string of the struct's named type
 	IfaceMs   map[string][]*IfaceMethod // by method name
 	SpecFiles []*SpecFile
 	Warnings  []string
 
-	typeIDs   map[string]int
-	typeByID  map[int]types.Type
-	typeList  []types.Type
-	dtDecls   map[string]*dtDecl // datatype declarations by sort name
-	dtOrder   []string
-	structOf  map[string]*types.Struct
-	AllFuncs  map[*ssa.Function]bool
-	ContractFileOf map[string]string // pkg path -> contract file used
-	modsCache map[*ssa.Function]map[string]bool
-	heapSorts map[string]*Sort
-	sliceElems map[string]*Sort
-	mcIndex   map[string][]methodSpec
+	typeIDs         map[string]int
+	typeByID        map[int]types.Type
+	typeList        []types.Type
+	dtDecls         map[string]*dtDecl // datatype declarations by sort name
+	dtOrder         []string
+	structOf        map[string]*types.Struct
+	AllFuncs        map[*ssa.Function]bool
+	ContractFileOf  map[string]string // pkg path -> contract file used
+	modsCache       map[*ssa.Function]map[string]bool
+	heapSorts       map[string]*Sort
+	sliceElems      map[string]*Sort
+	mcIndex         map[string][]methodSpec
 	extraTypeConsts map[string]int
-	defIndex map[string]*definer
-	GlobalInvs []*GlobalInv
-	fnByConst map[string]*ssa.Function
+	defIndex        map[string]*definer
+	GlobalInvs      []*GlobalInv
+	fnByConst       map[string]*ssa.Function
 }
 
 type dtDecl struct {
@@ -242,6 +242,9 @@ func (w *World) LoadSpecs() error {
 }
 
 func (w *World) pkgByNameOne(name string) *ssa.Package {
+	if strings.HasPrefix(name, "std:") {
+		return w.Pkgs[strings.TrimPrefix(name, "std:")]
+	}
 	ps := w.ByName[name]
 	// prefer module packages
 	var best *ssa.Package
@@ -267,7 +270,15 @@ func (w *World) pkgByNameOne(name string) *ssa.Package {
 // ResolveFunc maps a func/method contract header to the ssa function.
 func (w *World) ResolveFunc(c *Contract) (*ssa.Function, error) {
 	var sp *ssa.Package
-	if c.Pkg != "" {
+	if strings.HasPrefix(c.PkgName, "std:") {
+		// a package outside the module, by import path
+		sp = w.Pkgs[strings.TrimPrefix(c.PkgName, "std:")]
+		if sp == nil {
+			return nil, fmt.Errorf("package %q not loaded", c.PkgName)
+		}
+		c.Pkg = sp.Pkg.Path()
+	}
+	if sp == nil && c.Pkg != "" {
 		sp = w.Pkgs[c.Pkg]
 	}
 	if sp == nil {
@@ -755,7 +766,7 @@ func ValOf(e *T) *T {
 	return App("val", SRef, e)
 }
 func MkIface(dyn, val *T) *T { return App("mkI", SIface, dyn, val) }
-func IfaceIsNil(e *T) *T    { return Eq(Dyn(e), IntLit(0)) }
+func IfaceIsNil(e *T) *T     { return Eq(Dyn(e), IntLit(0)) }
 
 // IfaceEq is Go's == on interface values (when it does not panic). Every ground interface-sorted
 // term is constrained to be well-formed (dyn == 0 ==> the nil interface, see BuildSMT), so Go
